@@ -210,7 +210,7 @@ struct SIMDVector<int64_t,simd_abi::avx512> {
 
     FASTOR_INLINE int64_t minimum() {
         const internal::int64_alias_t *vals = reinterpret_cast<const internal::int64_alias_t*>(&value);
-        int64_t quan = 0;
+        int64_t quan = vals[0];
         for (FASTOR_INDEX i=0; i<Size; ++i)
             if (vals[i]<quan)
                 quan = vals[i];
@@ -218,7 +218,7 @@ struct SIMDVector<int64_t,simd_abi::avx512> {
     }
     FASTOR_INLINE int64_t maximum() {
         const internal::int64_alias_t *vals = reinterpret_cast<const internal::int64_alias_t*>(&value);
-        int64_t quan = 0;
+        int64_t quan = vals[0];
         for (FASTOR_INDEX i=0; i<Size; ++i)
             if (vals[i]>quan)
                 quan = vals[i];
@@ -559,7 +559,7 @@ struct SIMDVector<int64_t,simd_abi::avx> {
 
     FASTOR_INLINE int64_t minimum() {
         const internal::int64_alias_t *vals = reinterpret_cast<const internal::int64_alias_t*>(&value);
-        int64_t quan = 0;
+        int64_t quan = vals[0];
         for (FASTOR_INDEX i=0; i<Size; ++i)
             if (vals[i]<quan)
                 quan = vals[i];
@@ -567,7 +567,7 @@ struct SIMDVector<int64_t,simd_abi::avx> {
     }
     FASTOR_INLINE int64_t maximum() {
         const internal::int64_alias_t *vals = reinterpret_cast<const internal::int64_alias_t*>(&value);
-        int64_t quan = 0;
+        int64_t quan = vals[0];
         for (FASTOR_INDEX i=0; i<Size; ++i)
             if (vals[i]>quan)
                 quan = vals[i];
@@ -878,7 +878,7 @@ struct SIMDVector<int64_t,simd_abi::sse> {
 
     FASTOR_INLINE int64_t minimum() {
         const internal::int64_alias_t *vals = reinterpret_cast<const internal::int64_alias_t*>(&value);
-        int64_t quan = 0;
+        int64_t quan = vals[0];
         for (FASTOR_INDEX i=0; i<Size; ++i)
             if (vals[i]<quan)
                 quan = vals[i];
@@ -886,7 +886,7 @@ struct SIMDVector<int64_t,simd_abi::sse> {
     }
     FASTOR_INLINE int64_t maximum() {
         const internal::int64_alias_t *vals = reinterpret_cast<const internal::int64_alias_t*>(&value);
-        int64_t quan = 0;
+        int64_t quan = vals[0];
         for (FASTOR_INDEX i=0; i<Size; ++i)
             if (vals[i]>quan)
                 quan = vals[i];
